@@ -638,6 +638,7 @@ fn main() {
             ("c-user-login", "app.emit(\"c-user-login\", 1u32).ok();"), ("c_user_login", "app.emit(\"c_user_login\", 1u32).ok();"),
             ("c:user:login", "app.emit(\"c:user:login\", 1u32).ok();"), ("CUserLogin", "app.emit(\"CUserLogin\", 1u32).ok();"), ("c-user-login2", "app.emit(\"c-user-login2\", 1u32).ok();"),
             // functions carrying cfg / other attributes and qualifiers
+            ("n-closure", ""), ("n-async-block-in-call", ""), ("n-unsafe-block", ""), ("n-if-let", ""), ("n-else-if", ""), ("n-while-let", ""), ("n-match-guard", ""), ("n-block-expr", ""), ("n-paren", ""), ("n-async-await", ""),
             ("t-typed-vec-new", ""), ("t-typed-default", ""), ("t-typed-method", ""), ("t-typed-none", ""), ("t-typed-from", ""),
             ("f-cfg-not-test", ""), ("f-cfg-feature", ""), ("f-cfg-any", ""), ("f-attrs", ""), ("f-async-unsafe", ""), ("f-generic-payload", ""), ("f-private", ""),
         ];
@@ -657,6 +658,18 @@ fn main() {
             pub async unsafe fn odd_qualifiers(app: tauri::AppHandle) { app.emit(\"f-async-unsafe\", 1u32).ok(); }\n\
             pub fn generic_payload<T: Serialize + Clone>(app: &tauri::AppHandle, t: T) { app.emit(\"f-generic-payload\", t).ok(); }\n\
             fn private_fn(app: &tauri::AppHandle) { app.emit(\"f-private\", 1u32).ok(); }\n\
+            pub async fn nested_blocks(app: tauri::AppHandle, flag: Option<u32>) {\n\
+                let window = app.clone(); let cb = move || { window.emit(\"n-closure\", 1u32).ok(); }; cb();\n\
+                let webview = app.clone(); spawn(async move { webview.emit(\"n-async-block-in-call\", 1u32).ok(); });\n\
+                unsafe { app.emit(\"n-unsafe-block\", 1u32).ok(); }\n\
+                if let Some(n) = flag { app.emit(\"n-if-let\", n).ok(); } else if flag.is_none() { app.emit(\"n-else-if\", 0u32).ok(); }\n\
+                let mut it = vec![1u32].into_iter(); while let Some(n) = it.next() { app.emit(\"n-while-let\", n).ok(); }\n\
+                match flag { Some(n) if n > 1 => { app.emit(\"n-match-guard\", n).ok(); } _ => {} }\n\
+                let _x = { app.emit(\"n-block-expr\", 1u32).ok(); 5 };\n\
+                (app.emit(\"n-paren\", 1u32)).ok();\n\
+                let _r = async { app.emit(\"n-async-await\", 1u32).ok(); }.await;\n\
+            }\n\
+            fn spawn<F>(_f: F) {}\n\
             pub fn typed_lets(app: &tauri::AppHandle, state: Holder) {\n\
                 let queue: Vec<Player> = Vec::new(); app.emit(\"t-typed-vec-new\", &queue).ok();\n\
                 let fallback: Player = Default::default(); app.emit(\"t-typed-default\", fallback.clone()).ok();\n\
@@ -689,7 +702,8 @@ fn main() {
                 let ev = files.get("events.ts").ok_or("no events.ts")?;
                 // (event, payload type of the listener): the declared type of the payload variable, translated
                 let want = [("t-typed-vec-new", "types.Player[]"), ("t-typed-default", "types.Player"), ("t-typed-method", "number"), ("t-typed-none", "types.Player | null"), ("t-typed-from", "string"),
-                    ("p-vec-struct", "types.Player[]"), ("p-lifetime-opt", "types.Player | null"), ("p-lifetime-vec", "string[]"), ("a-ref-payload", "boolean"), ("a-stmt", "number"), ("f-generic-payload", "unknown")];
+                    ("p-vec-struct", "types.Player[]"), ("p-lifetime-opt", "types.Player | null"), ("p-lifetime-vec", "string[]"), ("a-ref-payload", "boolean"), ("a-stmt", "number"), ("f-generic-payload", "unknown"),
+                    ("n-if-let", "unknown"), ("n-while-let", "unknown"), ("n-match-guard", "unknown"), ("n-closure", "number")];
                 for (name, ty) in want {
                     let needle = format!(">('{}',", name);
                     let p = ev.find(&needle).ok_or(format!("no listener subscribed to '{}'", name))?;
